@@ -259,7 +259,7 @@ def capUpd (b : BState) (k : String) (f : Cap → Cap) : BState := { b with caps
 
 def sumI (xs : List Int) : Int := xs.foldl (· + ·) 0
 
-def c13Step (b : BState) (op : Op) (implOk : Bool) (impl : Json) (prev new : Dump) : BState :=
+def c13Step (b : BState) (op : Op) (implOk : Bool) (impl : Json) (prev new : Dump) (revs : List Dump) : BState :=
   let tk := fun (a e n : String) => a ++ "/" ++ e ++ "/" ++ n
   let (b, tags) : BState × List String :=
     if !implOk then (b, []) else
@@ -299,7 +299,19 @@ def c13Step (b : BState) (op : Op) (implOk : Bool) (impl : Json) (prev new : Dum
        else [if status < rec_ then s!"C13:below-recorded:{b.name}" else s!"C13:above-planned:{b.name}"]) ++
       (if c.active.isEmpty && status != rec_ then [s!"C13:after-return:{b.name}"] else [])
     | _ => []
-  { b with specs := b.specs ++ tags ++ chk }
+  -- the same bounds at every intermediate revision the operation produced (etcd): the
+  -- add-workload-and-decrement step must be ONE transaction (`DOp.add` is one transition)
+  let atRev := revs.flatMap fun d =>
+    (dedup (b.caps.map (·.1) ++ triplesOf d)).flatMap fun k =>
+      match k.splitOn "/" with
+      | [a, e, n] =>
+        let c := capGet b.caps k
+        let rec_ := recordedOf d a e n
+        let status := rec_ + sumI (markersOf d a e n)
+        if withinBounds rec_ status c.prior c.planned then []
+        else [if status < rec_ then s!"C13:below-recorded:at-revision:{b.name}" else s!"C13:above-planned:at-revision:{b.name}"]
+      | _ => []
+  { b with specs := b.specs ++ tags ++ chk ++ atRev }
 
 /-- is this divergence from the reference the recorded one (redis node status without entity)? -/
 def knownDivergence (b : BState) (op : Op) (implOk : Bool) (prev : Dump) : Option String :=
@@ -335,7 +347,7 @@ def stepBackend (deploy : Bool) (idx : Nat) (oj : Json) (op : Op) (b : BState) :
     else b.firstBad
   let b := { b with st := sF, dump := new, agree := b.agree && !bad, specs := b.specs ++ tags, firstBad := fb }
   let b := c25Step b op implOk prev new
-  if deploy then c13Step b op implOk impl prev new else b
+  if deploy then c13Step b op implOk impl prev new ((jarr (jget entry "revs")).map dumpOf) else b
 
 def handle (j : Json) : Json :=
   let id := jget j "id"
